@@ -214,6 +214,14 @@ impl Arena {
         self.bytes.push(b);
         unsafe { &*p }
     }
+    /// A buffer that is lent to the engine for one call and scrubbed afterwards;
+    /// it stays allocated until the arena is dropped.
+    pub fn keep_bytes_mut(&mut self, v: Vec<u8>) -> &'static mut [u8] {
+        let mut b = v.into_boxed_slice();
+        let p: *mut [u8] = &mut *b;
+        self.bytes.push(b);
+        unsafe { &mut *p }
+    }
     pub fn keep_value(&mut self, v: serde_json::Value) -> &'static serde_json::Value {
         let b = Box::new(v);
         let p: *const serde_json::Value = &*b;
